@@ -5,7 +5,7 @@
    hold for every such C, ceq, rnd.  [reloaded m] is the mesh a reader builds from what a writer stored:
    geometry = the rounded coordinates in vertices() order, vertices() = all of them in order,
    triangles = the mesh-local index triples of m, in the same order and with the same winding. *)
-From OM Require Import Base.Lists Geom.MeshCodec Geom.MeshCodecProofs Geom.MeshCodecBytes Geom.MeshFillProofs.
+From OM Require Import Base.Lists Geom.MeshCodec Geom.MeshCodecFast Geom.MeshCodecProofs Geom.MeshCodecBytes Geom.MeshFillProofs.
 From Coq Require Import NArith.
 
 Section C15.
@@ -97,6 +97,13 @@ Theorem c15_flood_fill_consistent_refuted :
   correct_local N.of_nat bowtie = bowtie /\ hco_tr N.of_nat (correct_local N.of_nat bowtie) = false.
 Proof. exact bowtie_refutes. Qed.
 
+(* ---- the efficient definitions the extracted model runs are the proved ones *)
+Theorem c15_fast_orientation_check_equiv : forall (ix : nat -> N) (ts : list tri), hco_fast ix ts = hco_tr ix ts.
+Proof. exact hco_fast_eq. Qed.
+
+Theorem c15_position_table_equiv : forall (l : list nat) (g : nat), vpos_t (postab l) g = vpos l g.
+Proof. exact vpos_t_eq. Qed.
+
 (* ---- de-duplication by coordinates *)
 Theorem c15_add_vertices_distinct : forall vs : list (V3 C),
   pdistinct C ceq vs -> add_vertices C ceq [] vs = (vs, seq 0 (length vs)).
@@ -151,6 +158,8 @@ Print Assumptions c15_flood_fill_only_flips_partial.
 Print Assumptions c15_flood_fill_consistent_partial.
 Print Assumptions c15_flood_fill_all_visited.
 Print Assumptions c15_flood_fill_consistent_refuted.
+Print Assumptions c15_fast_orientation_check_equiv.
+Print Assumptions c15_position_table_equiv.
 Print Assumptions c15_add_vertices_distinct.
 Print Assumptions c15_geometry_never_holds_equal_vertices.
 Print Assumptions c15_merge_keeps_triangles.
